@@ -38,7 +38,14 @@ tree mk_tree(int kids)
 
 void grids()
 {
-  for (auto const &wh : {std::make_pair(0U, 0U), std::make_pair(1U, 1U), std::make_pair(2U, 2U), std::make_pair(3U, 1U)})
+  std::vector<std::pair<unsigned, unsigned>> shapes{{0U, 0U}, {1U, 1U}, {2U, 2U}, {3U, 1U}};
+  if (thorough())
+  {
+    shapes.emplace_back(1U, 3U);
+    shapes.emplace_back(3U, 2U);
+    shapes.emplace_back(2U, 0U);
+  }
+  for (auto const &wh : shapes)
   {
     unsigned const w = wh.first, h = wh.second;
     std::string const sh = std::to_string(w) + "x" + std::to_string(h);
@@ -118,7 +125,7 @@ void grids()
 
 void trees()
 {
-  for (int kids : {0, 1, 2})
+  for (int kids : thorough() ? std::vector<int>{0, 1, 2, 3} : std::vector<int>{0, 1, 2})
   {
     std::string const sh = "kids:" + std::to_string(kids);
     auto const mk = [kids] { return mk_tree(kids); };
